@@ -6,6 +6,7 @@ import (
 	"sort"
 	"strings"
 	"testing"
+	"time"
 
 	"pgregory.net/rapid"
 
@@ -20,7 +21,7 @@ func TestTmpDump(t *testing.T) {
 	ex := map[string]string{}
 	total, bad := 0, 0
 	rapid.Check(t, func(rt *rapid.T) {
-		g := &pgen{rt}
+		g := &pgen{rt: rt}
 		p := g.program(g.pick("force", []string{"", "if", "for", "map", "import", "interp", "sink", "func"}))
 		total++
 		_, err := parser.Parse("x", p)
@@ -45,4 +46,22 @@ func TestTmpDump(t *testing.T) {
 	for _, k := range ks[:min(len(ks), 25)] {
 		fmt.Printf("%5d %s\n      %q\n", errs[k], k, ex[k])
 	}
+}
+
+func TestTmpTiming(t *testing.T) {
+	if os.Getenv("C13_DUMP") == "" {
+		t.Skip()
+	}
+	rapid.Check(t, func(rt *rapid.T) {
+		t0 := time.Now()
+		c := drawCase(rt)
+		t1 := time.Now()
+		runCase(c)
+		t2 := time.Now()
+		sz := 0
+		for _, p := range c.Progs {
+			sz += len(p)
+		}
+		fmt.Printf("TIMING draw=%v run=%v progs=%d bytes=%d G=%d reps=%d prov=%s pretty=%v events=%d\n", t1.Sub(t0).Round(time.Millisecond), t2.Sub(t1).Round(time.Millisecond), len(c.Progs), sz, c.Goroutines, c.Reps, c.Provider, c.Pretty, len(c.Events))
+	})
 }
